@@ -167,8 +167,9 @@ def run_case(kind, params):
         # updated in place), must behave like a fresh pattern constructed with the parameters it has now
         from libertem_blobfinder.common import patterns as pt
         pp = params["pattern"]
-        shared = impl.pattern_from(pp)
         shp = tuple(params["shape"])
+        first = impl.pattern_from(pp).get_mask(shp)      # a pattern with these parameters, before anything was modified
+        shared = impl.pattern_from(pp)
         shared.get_mask(shp)
         shared.get_template(shp)
         f = params["factor"]
@@ -208,6 +209,11 @@ def run_case(kind, params):
                             f"pattern with the same current parameters (max diff {np.nanmax(np.abs(a - b)):.4g})")
             if not np.array_equal(shared.get_template(q), fresh.get_template(q), equal_nan=True):
                 msgs.append(f"{k}: after use and a parameter update ({how}) get_template{q} differs from a fresh pattern")
+        # ... and a NEW pattern object constructed with the original parameters is not affected by what was done to `shared`
+        again = impl.pattern_from(pp).get_mask(shp)
+        if not np.array_equal(first, again, equal_nan=True):
+            msgs.append(f"{k}: a new pattern object with parameters {pp} gives another mask after a DIFFERENT object of the same "
+                        f"class was used and updated ({how}, factor {f}): max diff {np.nanmax(np.abs(first - again)):.4g}")
     elif kind == "matcher":
         m = grm.Matcher(tolerance=params["tol"], min_weight=0.1, min_match=3)
         for inp in params["inputs"]:
